@@ -162,8 +162,8 @@ func parseJobs(props []string, tier string) []*Job {
 		out = append(out, j)
 	}
 	// longer sentences over sub-alphabets (see h_parse.go verifSymTokens)
-	sub := map[int][2]int{1: {5, 7}, 2: {6, 9}, 3: {5, 7}, 4: {5, 7}}
-	for _, a := range []int{1, 2, 3, 4} {
+	sub := map[int][2]int{1: {5, 7}, 2: {6, 9}, 3: {5, 7}, 4: {5, 7}, 5: {6, 7}}
+	for _, a := range []int{1, 2, 3, 4, 5} {
 		lim := sub[a][0]
 		if tier == "thorough" {
 			lim = sub[a][1]
@@ -371,8 +371,8 @@ func init() {
 			if tier == "thorough" {
 				nmax = 3
 			}
-			for _, first := range []string{"a.b", "a[", "'unterminated", "\"", "a || ", "`[1,2]`", "foo(", "'it\\'s'", "a[0:1:2:3]"} {
-				for n := 0; n <= nmax; n++ {
+			for _, first := range []string{"a.b", "a[", "'unterminated", "\"", "a || ", "`[1,2]`", "foo(", "'it\\'s'", "a[0:1:2:3]", "'it\\'s", "a == 'x\\'", "\"un\\\"closed", "`[1,"} {
+				for n := 0; n <= nmax+1; n++ {
 					j := jobOf("VerifParserReuse", []string{"C13"}, "first", first, "N", itoa(n))
 					j.Unwind = 64
 					js = append(js, j)
@@ -511,7 +511,8 @@ func init() {
 				js = append(js, j)
 			}
 			mk("VerifQuotedIdent", "S", itoa(S))
-			mk("VerifRawString", "S", itoa(S))
+			mk("VerifRawString", "S", itoa(S+1))
+			mk("VerifRawPair", "S", itoa(S))
 			for shape := 0; shape <= 3; shape++ {
 				mk("VerifLiteral", "S", itoa(S), "shape", itoa(shape))
 			}
